@@ -84,3 +84,54 @@ Example unclosed_blocks_merge :
   bc_F parser_tables NT_block base [K_PLAIN] = Some [R_block_para] /\
   bc_F parser_tables NT_block base ([K_PLAIN] ++ [K_PLAIN]) = Some [R_block_para].
 Proof. vm_compute. auto. Qed.
+
+(* ---------- the delimiter rules (mmd_assign_ambidextrous_tokens_in_block, cases STAR and UL; model/Ambidextrous.v,
+   tied to the compiled function by harness/ambi.c) *)
+From MMD.model Require Import Ambidextrous.
+From MMD.proofs Require Import AmbidextrousProofs.
+
+(* Whether a * or _ may open or close emphasis depends only on the text between the nearest whitespace or line ending
+   on either side: whatever precedes that whitespace (including nothing: the text may start the document) and
+   whatever follows it (including nothing: the terminating NUL stands for a line ending) has no influence.  This is
+   the part of "rendering is compositional" that the delimiter rules owe: a paragraph's markers are judged the same
+   wherever the paragraph stands. *)
+Theorem emphasis_flags_context_independent :
+  forall (star : bool) (pre : list N) (c1 : N) (s : list N) (c2 : N) (post : list N) (t : nat),
+    wsle c1 = true -> wsle c2 = true ->
+    nth_error s t = Some (if star then 42%N else 95%N) ->
+    assign star (pre ++ c1 :: s ++ c2 :: post) (S (length pre) + t) = assign star s t.
+Proof. exact assign_context_independent. Qed.
+Print Assumptions emphasis_flags_context_independent.
+
+(* the same for the other tokens the routine judges by their surroundings - single and double quotes (incl. the
+   apostrophe tests), dashes, math delimiters, super- and subscript: the outcome (open / close flags, new type, new
+   length) of a token inside a whitespace-delimited stretch does not depend on the text beyond that whitespace.  The
+   two-backtick quote form is left out: its can_close is cleared at offset 0 only, where nothing precedes it that it
+   could close. *)
+Theorem delimiter_outcome_context_independent :
+  forall (k : tkind) (pre : list N) (c1 : N) (s : list N) (c2 : N) (post : list N) (start len : nat),
+    wsle c1 = true -> wsle c2 = true -> k <> KBacktick ->
+    (start < length s)%nat -> (start + len <= length s)%nat ->
+    (k = KStar -> nth_error s start = Some 42%N) -> (k = KUl -> nth_error s start = Some 95%N) ->
+    assign_tok k (pre ++ c1 :: s ++ c2 :: post) (S (length pre) + start) len = assign_tok k s start len.
+Proof. exact assign_tok_context_independent. Qed.
+Print Assumptions delimiter_outcome_context_independent.
+
+(* the documented rule for unambiguous uses: a marker with whitespace (or the start of the text) before its run and
+   something else after it can open and cannot close; one with whitespace (or the end) after its run and something
+   else before it can close and cannot open - for * and for _ alike *)
+Theorem flanking_markers :
+  forall (star : bool) (s : list N) (t : nat) la ra,
+    (left_class s t = Some (true, la) -> right_class s t = Some (false, ra) -> assign star s t = Some (true, false)) /\
+    (left_class s t = Some (false, la) -> right_class s t = Some (true, ra) -> assign star s t = Some (false, true)).
+Proof. exact flanking. Qed.
+Print Assumptions flanking_markers.
+
+Example emphasis_flags_example :
+  (* "a *b* c": opener then closer; "x _b_": the same with underscores; "a_b_c": neither opens *)
+  ((assign_all [97; 32; 42; 98; 42; 32; 99]%N = [(2%nat, Some (true, false)); (4%nat, Some (false, true))]) /\
+   (assign_all [120; 32; 95; 98; 95]%N = [(2%nat, Some (true, false)); (4%nat, Some (false, true))]) /\
+   (assign_all [97; 95; 98; 95; 99]%N = [(1%nat, Some (false, false)); (3%nat, Some (false, false))]) /\
+   (* and the hypotheses of the context theorem are met by a marker inside a line of a longer text *)
+   (assign true ([42; 120; 10] ++ 10 :: [97; 42; 98] ++ 10 :: [42])%N (S 3 + 1)%nat = assign true [97; 42; 98]%N 1%nat))%type.
+Proof. vm_compute. auto. Qed.
